@@ -16,6 +16,17 @@ type mutant struct {
 }
 
 var mutants = []mutant{
+	// operators added with the rules that the seeded changes of round 2 motivated
+	{"C03-cache-key-components", "C03", "jtp/jtp.go", "key := link.String() + \" \" + accept", "key := link.Host + link.RequestURI() + \" \" + accept", "C03.R6"},
+	{"C03-readline-fragments", "C03", "jtp/jtp.go", "func findLocation(buf *bufio.Reader, baseLink *url.URL) (*url.URL, error) {\n\tfor {\n\t\tline, err := buf.ReadString('\\n')", "func findLocation(buf *bufio.Reader, baseLink *url.URL) (*url.URL, error) {\n\tfor {\n\t\traw, _, err := buf.ReadLine()\n\t\tline := string(raw) + \"\\n\"", "C03.R7"},
+	{"C05-line-error-ignored", "C05", "jtp/jtp.go", "func validateHeaders(buf *bufio.Reader, tolerated []string) error {\n\tcontentTypeValidated := false\n\tfor {\n\t\tline, err := buf.ReadString('\\n')\n\t\tif err != nil {", "func validateHeaders(buf *bufio.Reader, tolerated []string) error {\n\tcontentTypeValidated := false\n\tfor {\n\t\tline, err := buf.ReadString('\\n')\n\t\tif err != nil && line == \"\" {", "C05.R5"},
+	{"C06-id-deref-unguarded", "C06", "pub/actor.go", "if a.id != nil && !errors.Is(a.handleErr, object.ErrKeyNotPresent) {", "if !errors.Is(a.handleErr, object.ErrKeyNotPresent) {", "C06.K8"},
+	{"C08-item-written-after-construction", "C08", "pub/post.go", "\tif p.parentErr != nil {\n\t\treturn []Tangible{NewFailure(p.parentErr)}, nil\n\t}", "\tif p.parentErr != nil {\n\t\tfailure := NewFailure(p.parentErr)\n\t\tp.parentObject = nil\n\t\treturn []Tangible{failure}, nil\n\t}", "C08.R8"},
+	{"C10-page-falls-back-to-first", "C10", "pub/collection.go", "\t} else {\n\t\tc.next, c.nextErr = o.GetAny(\"next\")\n\t}", "\t} else {\n\t\tc.next, c.nextErr = o.GetAny(\"next\")\n\t\tif c.nextErr != nil {\n\t\t\tc.next, c.nextErr = o.GetAny(\"first\")\n\t\t}\n\t}", "C10.R5"},
+	{"C11-ties-to-last", "C11", "splicer/splicer.go", "if candidateElement.Timestamp().After(mostRecent.Timestamp()) {", "if !candidateElement.Timestamp().Before(mostRecent.Timestamp()) {", "C11.R7"},
+	{"C11-first-head-not-taken", "C11", "splicer/splicer.go", "\t\tif mostRecent == nil {\n\t\t\tmostRecent = candidateElement\n\t\t\tmostRecentIndex = i\n\t\t\tcontinue\n\t\t}", "\t\tif mostRecent == nil && i == 0 {\n\t\t\tmostRecent = candidateElement\n\t\t\tmostRecentIndex = i\n\t\t\tcontinue\n\t\t}\n\t\tif mostRecent == nil {\n\t\t\tcontinue\n\t\t}", "C11.R7"},
+	{"C11-wrong-source-popped", "C11", "splicer/splicer.go", "\t\tif candidateElement.Timestamp().After(mostRecent.Timestamp()) {\n\t\t\tmostRecent = candidateElement\n\t\t\tmostRecentIndex = i", "\t\tif candidateElement.Timestamp().After(mostRecent.Timestamp()) {\n\t\t\tmostRecent = candidateElement\n\t\t\tmostRecentIndex = i - i", "C11.R7"},
+	{"C19-sscanf-components", "C19", "config/config.go", "r, err := strconv.ParseUint(text[1:3], 16, 0)\n\tif err != nil {", "var r uint64\n\t_, err := fmt.Sscanf(text[1:3], \"%x\", &r)\n\tif err != nil {", "C19.R2"},
 	// operators added with the rules that the seeded changes of round 1 motivated
 	{"C02-cache-wrong-source", "C02", "jtp/jtp.go", "b.item, b.source, b.err = Get(location, accept, tolerated, maxRedirects-1)", "b.item, _, b.err = Get(location, accept, tolerated, maxRedirects-1)\n\t\tb.source = link", "C02.R4"},
 	{"C03-header-unanchored", "C03", "jtp/jtp.go", "`^(?i:location):[ \\t\\r]*(.*?)[ \\t\\r]*\\n$`", "`(?i:location):[ \\t\\r]*(.*?)[ \\t\\r]*\\n$`", "C03.R5"},
